@@ -22,11 +22,12 @@ from vlib.kernel import Violation, Info, unexpected, dataflows, quiet, Flow, Fee
 
 PID = 'C18'
 LEVEL = 'exploration'
-LEVEL_TEXT = ('schedule exploration: interleavings are sampled (not exhausted) through a harness-owned deterministic scheduler '
-              'that models queue semantics; plus a few runs of the real multiprocessing implementation')
+LEVEL_TEXT = ('schedule exploration through a harness-owned deterministic scheduler that models queue semantics: sampled '
+              'schedules, plus ALL schedules within k deviations of the default schedule for small configurations '
+              '(bounded-exhaustive), plus a few runs of the real multiprocessing implementation')
 TECHNIQUE = 'property-based testing over generated schedules with a harness-owned cooperative scheduler (greenlets) replacing mp/threading/queue'
 RULE = ('cases = rows 0-30 x predicate pattern (none given / all / some / first selected row late / none selected) x N in 1..4 '
-        'workers x a schedule of 0-400 small integers choosing the next enabled task at every scheduling point (put, get, '
+        'workers x a schedule of 0-400 small integers (sampled) + bounded-exhaustive exploration (all schedules within k deviations of the default one for small configurations) x choosing the next enabled task at every scheduling point (put, get, '
         'start, join, feeder flush); sparse: real multiprocessing runs (N 1..4, 0-600 rows). non-trivial: >=10 scheduling '
         'points had >=2 enabled tasks and some worker finished before the producer; distinct by hash of the executed '
         'interleaving (first 400 task switches)')
@@ -36,6 +37,8 @@ ASSUMPTIONS = [
     'faults inside workers (killed process, unpicklable row, raising row function) and upstream errors are outside the '
     'property (upstream errors under parallelize: known finding recorded in DESIGN.md)',
 ]
+EXHAUSTIVE_NOTE = ('bounded-exhaustive part: for each of the listed small configurations (rows 0-3, N 1-2, 4 predicate patterns) ALL '
+                   'schedules with at most k deviations from the default schedule are executed (k=1 quick, k<=2 thorough)')
 BUDGET = {'quick': dict(examples=4000, shards=8, seconds=80, chunk=100),
           'thorough': dict(examples=200000, shards=16, seconds=1200, chunk=500)}
 
@@ -102,6 +105,14 @@ def enumerate_cases(tier):
         for N in (1, 2, 3, 4):
             for pred in PREDS:
                 out.append({'mode': 'real', 'n': 600, 'N': N, 'pred': pred, 'late': 300, 'slow': 'consumer'})
+    # bounded-exhaustive part: every schedule with <= k deviations from the default schedule, per small configuration
+    configs = [(n, N, pred) for n in (0, 1, 2, 3) for N in (1, 2) for pred in ('all', 'some', 'late', 'none-selected')]
+    for n, N, pred in configs:
+        out.append({'mode': 'bounded', 'k': 1, 'n': n, 'N': N, 'pred': pred, 'late': 2, 'two_resources': False})
+    if tier == 'thorough':
+        for n, N, pred in [(n, N, pred) for n in (1, 2) for N in (1, 2) for pred in ('all', 'some', 'late')]:
+            out.append({'mode': 'bounded', 'k': 2, 'n': n, 'N': N, 'pred': pred, 'late': 2, 'two_resources': False})
+        out.append({'mode': 'bounded', 'k': 1, 'n': 3, 'N': 3, 'pred': 'all', 'late': 0, 'two_resources': True, 'all_resources': True})
     return out
 
 
@@ -177,21 +188,11 @@ def run_real(case):
     return None, 'no-result (exit %s)' % p.returncode
 
 
-def check(case, ctx):
+def run_under_scheduler(case, s, classes=None):
+    """One execution of parallelize under scheduler `s`; raises Violation when the oracle fails."""
     n, N, pred, late = case['n'], case['N'], case['pred'], case['late']
     exp = expected_rows(n, pred, late)
-    classes = ['mode:' + case['mode'], 'N=%d' % N, 'pred:' + pred, 'rows~%d' % (10 * (n // 10))]
-    if case['mode'] == 'real':
-        rows, status = run_real(case)
-        if status == 'timeout':
-            raise Violation('real:did-not-terminate', {'case': case})
-        if rows is None:
-            raise Violation('real:no-result', {'status': status})
-        if canon(rows) != canon(exp):
-            raise Violation('real:rows', {'n_got': len(rows), 'n_expected': len(exp)})
-        return Info(nontrivial=n > 0 and pred != 'none-selected', classes=classes,
-                    extra={'real_multiprocessing_runs': 1, 'traces_validated_against_impl': 1})
-    s = vsched.Scheduler(case['schedule'])
+    classes = classes if classes is not None else []
     fields = [{'name': 'id', 'type': 'integer'}, {'name': 'v', 'type': 'integer'}, {'name': 'cnt', 'type': 'integer'}]
     pkg = [{'name': 'res1', 'fields': fields, 'rows': [{'id': i, 'v': i, 'cnt': 0} for i in range(1, n + 1)]}]
     empty = case.get('empty_rows') and pred in ('none-given', 'all', 'none-selected')
@@ -247,6 +248,61 @@ def check(case, ctx):
                 exp2.append({'id': r['id'], 'v': r['v'] * 2, 'cnt': 1} if (selected(pred, late, r['id']) and not empty) else dict(r))
             if canon(out['rows'][1]) != canon(exp2):
                 raise Violation('rows:second-parallelized-resource', {'got': out['rows'][1][:5], 'expected': exp2[:5], 'N': N, 'pred': pred})
+    return s
+
+
+def check_bounded(case, classes):
+    """ALL schedules that deviate at most k times from the default schedule (always run the first enabled task),
+    for one small configuration: deviation = at decision i take enabled task number c>0 instead."""
+    k = case['k']
+    runs = 0
+    subkeys = []
+
+    def execute(dev):
+        nonlocal runs
+        s = vsched.Scheduler([], deviations=dict(dev))
+        c = dict(case, two_resources=case.get('two_resources', False))
+        try:
+            run_under_scheduler(c, s, [])
+        except Violation as v:
+            v.detail = dict(v.detail or {}, deviations=sorted(dev.items()), bounded_k=k)
+            raise
+        runs += 1
+        subkeys.append(json.dumps(sorted(dev.items())))
+        return s.branching
+
+    def explore(dev, start, depth):
+        b = execute(dev)
+        if depth == 0:
+            return
+        for i in range(start, len(b)):
+            for choice in range(1, b[i]):
+                nd = dict(dev)
+                nd[i] = choice
+                explore(nd, i + 1, depth - 1)
+    explore({}, 0, k)
+    return Info(nontrivial=runs >= 2, classes=classes + ['bounded-k=%d' % k], subkeys=subkeys, evals=runs,
+                extra={'bounded_exhaustive_configurations': 1, 'bounded_exhaustive_schedules': runs})
+
+
+def check(case, ctx):
+    n, N, pred, late = case['n'], case['N'], case['pred'], case['late']
+    exp = expected_rows(n, pred, late)
+    classes = ['mode:' + case['mode'], 'N=%d' % N, 'pred:' + pred, 'rows~%d' % (10 * (n // 10))]
+    if case['mode'] == 'real':
+        rows, status = run_real(case)
+        if status == 'timeout':
+            raise Violation('real:did-not-terminate', {'case': case})
+        if rows is None:
+            raise Violation('real:no-result', {'status': status})
+        if canon(rows) != canon(exp):
+            raise Violation('real:rows', {'n_got': len(rows), 'n_expected': len(exp)})
+        return Info(nontrivial=n > 0 and pred != 'none-selected', classes=classes,
+                    extra={'real_multiprocessing_runs': 1, 'traces_validated_against_impl': 1})
+    if case['mode'] == 'bounded':
+        return check_bounded(case, classes)
+    s = vsched.Scheduler(case['schedule'])
+    run_under_scheduler(case, s, classes)
     order = s.finish_order
     worker_first = False
     prod = next((i for i, nm in enumerate(order) if nm.startswith('thread') and 'producer' in nm), None)
